@@ -57,6 +57,8 @@ Definition judge (c o : sexp) : verdict :=
                   first_some
                     [(if in_dom then resolve_ok t g
                       else if wf t && Nat.leb 2 (degree t) then resolve_ok_single t g else basic_ok t g);
+                     (* every branch with its length, support and p-value, tip branches included *)
+                     (if wf t && Nat.leb 2 (degree t) then branches_kept t g else None);
                      (* negative lengths read as themselves ([len0] reads them as 0) *)
                      (if wf t && Nat.leb 2 (degree t) && negb (matrix_eqb (dist_matrix Induced.len_raw t) (dist_matrix Induced.len_raw g))
                       then Some "a tip-to-tip distance changed (negative lengths read as themselves)" else None)], "resolve")
